@@ -192,6 +192,38 @@ def uninit_bit_case(src, base, img):
     return ["nothing"]
 
 
+def dup_names_case(src, img):
+    """tea hash with the unsigned-char flag, an indexed directory of several leaves whose names contain bytes >= 0x80, and 40
+    names made equal to another name of the directory (different inodes): the repair renames the duplicates and has to
+    file the new names under the hash the filesystem uses"""
+    env = e2v.tool_env(src)
+    T = lambda p: os.path.join(src, p)
+    e2v.sh([T("misc/mke2fs"), "-q", "-F", "-t", "ext4", "-b", "1024", "-N", "1024", "-O", "^metadata_csum",
+            "-E", "hash_seed=01234567-89ab-cdef-0123-456789abcdef", img, "8M"], env=env, timeout=120)
+    r = e2v.rng(11, "c02dup")
+    stems = set()
+    while len(stems) < 200:
+        stems.add(bytes(r.choice(b"xy\xc3\xa9\xe2\x82\xac\xf0\x9f0123") for _ in range(r.randint(8, 20))))
+    stems = sorted(stems)
+    cmds = b"ssv def_hash_version tea\nssv flags 2\nmkdir u\n" + b"".join(b"mknod u/" + s_ + b"a p\nmknod u/" + s_ + b"b p\n" for s_ in stems)
+    e2v.sh([T("debugfs/debugfs"), "-w", "-f", "-", img], input=cmds, env=env, timeout=300)
+    e2v.sh([T("e2fsck/e2fsck"), "-fyD", img], env=env, timeout=300)
+    fs = Fs(img)
+    d = bytearray(fs.d)
+    u = {e[0]: e[1] for e in fs.dir_entries(2)}[b"u"]
+    m, _ = fs.file_map(u)
+    want = {s_ + b"b" for s_ in stems[::5]}
+    n = 0
+    for lb in sorted(m):
+        base_ = m[lb][0] * fs.bs
+        for (o, ino, rl, nl, ft, name) in fs.dir_block_entries(fs.block(m[lb][0])):
+            if ino and name in want:
+                d[base_ + o + 8 + nl - 1] = ord("a")
+                n += 1
+    open(img, "wb").write(d)
+    return ["tea / unsigned hash: %d names of an indexed directory (bytes >= 0x80) made equal to another name" % n]
+
+
 def hash_flag_case(src, img, alg):
     """an indexed directory whose names contain bytes >= 0x80, built under the signed-char hash; then the superblock says
     unsigned (checksum valid): most names now lie outside the hash range of their leaf"""
@@ -249,6 +281,9 @@ def one_case(src, idx, seed, tier, keep=False):
         name, opts, size = [c for c in corrupt.IMG_CONFIGS if c[0] == "ext4_metabg48"][0]
         base = corrupt.build_image(src, WORK, name, opts, size, 1)
         desc = uninit_bit_case(src, base, img)
+    elif idx == nd + 4 + 2 * len(corrupt.PAIRS) + 4 + len(corrupt.ORPHAN_VARIANTS) + 7:
+        name, opts, size = "ext4_tea_unsigned_dup", ["-t", "ext4", "-b", "1024", "-N", "1024", "-O", "^metadata_csum"], "8M"
+        desc = dup_names_case(src, img)
     elif idx == nd + 4 + 2 * len(corrupt.PAIRS) + 4 + len(corrupt.ORPHAN_VARIANTS) + 5:
         # the listed known finding: i_file_acl of the orphan file inode beyond the end of the filesystem
         name, opts, size = [c for c in corrupt.IMG_CONFIGS if c[0] == "ext4_1k"][0]
